@@ -123,6 +123,18 @@ def run(tier, seed):
         scen.append({"cfg": {"seed": seed + i, "cbus": 1500, "yield": rnd.choice([0, 40])},
                      "progs": [[{"op": "active", "e": e}, {"op": "sync", "e": e}, {"op": rnd.choice(["del", "del_block"]), "e": e}],
                                [{"op": "add", "e": 3 - e}, {"op": "sleep", "us": 300}, {"op": "del_noblock", "e": 3 - e}]]})
+    # re-activation during the callback, then a cross-thread del aimed into that callback: the del must cancel the
+    # pending second invocation and wait for the first (catches a del that waits before it dequeues)
+    for i in range(40 if q else 400):
+        e = rnd.randint(1, 2)
+        scen.append({"cfg": {"seed": seed + 7 * i, "cbus": 20000, "yield": rnd.choice([0, 30]), "react": 1},
+                     "progs": [[{"op": "active", "e": e}, {"op": "sync", "e": e}, {"op": "sleep", "us": 200},
+                                {"op": rnd.choice(["del", "del_block"]), "e": e}]]})
+    # cross-thread add of an I/O event (readable fd, far timeout) on backends that must be woken to see the change
+    for i in range(24 if q else 240):
+        be = [dict(backend="poll"), dict(backend="select"), dict(backend="epoll", changelist=1), dict(backend="epoll")][i % 4]
+        cfgx = {"seed": seed + 13 * i, "cbus": 300, "yield": rnd.choice([0, 30])}; cfgx.update(be)
+        scen.append({"cfg": cfgx, "progs": [[{"op": "add", "e": 3}], [{"op": "add", "e": rnd.choice([1, 4])}]]})
     for s in scen:
         chk.count_case(s["progs"], True)
     chk.sample(scen[0]); chk.sample(scen[-1])
